@@ -417,6 +417,12 @@ def impl_parse(case):
         except Exception as ex:  # noqa
             return {'res': exc_obs(ex), 'ctor': True}
         out['defaults0'] = [canon_val(o.default) for o in parser.options]
+        if case.get('prev_argv') is not None:
+            # an earlier, different command line parsed with the same parser object must leave no trace
+            try:
+                parser.parse(list(case['prev_argv']))
+            except Exception:  # noqa
+                pass
         for tag, dtag in (('res', 'defaults'), ('res2', 'defaults2')):
             try:
                 params, pos = parser.parse(list(case['argv']))
@@ -449,6 +455,13 @@ def impl_command(case):
     out = {}
     with environ(case['env']):
         cmd = VCmd(config=config)
+        if case.get('prev_argv') is not None:
+            try:
+                cmd.parse_execute(list(case['prev_argv']))
+            except Exception:  # noqa
+                # after an error the command object may hold a half configured parser (Command.cmdparser stores the
+                # CmdParse before overwrite_defaults ran through): not reused, see findings/pending
+                cmd = VCmd(config=config)
         for tag in ('res', 'res2'):
             del seen[:]
             try:
@@ -549,6 +562,15 @@ def impl_main(case, workdir):
                 extra['GLOBAL'] = cfg_py(case['glob'])
             kw['extra_config'] = extra
         with environ(case['env']), contextlib.redirect_stderr(err):
+            if case.get('prev_argv') is not None:
+                # an earlier invocation in the same process (new DoitMain / command objects) must leave no trace
+                try:
+                    Main(task_loader=ModuleTaskLoader(dict(ns)), **kw).run(['vcmd'] + list(case['prev_argv']))
+                except BaseException:  # noqa
+                    pass
+                del box['seen'][:]
+                err.seek(0)
+                err.truncate()
             try:
                 code = Main(task_loader=ModuleTaskLoader(ns), **kw).run(['vcmd'] + list(case['argv']))
             except BaseException as ex:  # noqa
